@@ -74,6 +74,7 @@ class CSSRule(cssutils.util.Base2):
 
     def _setAtkeyword(self, keyword):
         """Check if new keyword fits the rule it is used for."""
+        self._checkReadonly()
         atkeyword = self._normalize(keyword)
         if not self.atkeyword or (self.atkeyword == atkeyword):
             self._atkeyword = atkeyword
@@ -173,6 +174,7 @@ class CSSRuleRules(CSSRule):
 
     def _setCssRules(self, cssRules):
         "Set new cssRules and update contained rules refs."
+        self._checkReadonly()
         cssRules.append = self.insertRule
         cssRules.extend = self.insertRule
         cssRules.__delitem__ = self.deleteRule
